@@ -1115,7 +1115,7 @@ impl SimdLz77Compressor {
         let mut reader = BitReader::new(compressed);
         let mut matches = Vec::new();
 
-        while reader.has_bits(3) { // Need at least 3 bits for compression type
+        while reader.has_bits(8) { // the shortest encoded match takes 8 bits; fewer bits are padding
             let (pa_zip_match, _) = decode_match(&mut reader)?;
             matches.push(pa_zip_match);
         }
